@@ -611,8 +611,8 @@ func (c *Ctx) c04Oracle() error {
 			}
 			// constants spelled like floats (2.0, 1e3 - integral, or Go rejects them) are untyped constants too: they take
 			// the declared type in every store position
-			fmt.Fprintf(&sk, "func fkd() %s { var x %s = %d.0; return x }\nfunc fka() %s { var x %s; x = %d.0; return x }\nfunc fkp() %s { return par(%d.0) }\nfunc fkr() %s { return %d.0 }\nfunc fkf() %s { s := &S{F: %d.0}; return s.F }\nfunc fke() %s { s := []%s{%d.0}; return s[0] }\nfunc fkm() %s { m := map[string]%s{\"k\": %d.0}; return m[\"k\"] }\nconst FKC = %d.0\nfunc fkn() %s { var x %s = FKC; return x }\n",
-				T, T, K, T, T, K, T, K, T, K, T, K, T, T, K, T, T, K, K, T, T)
+			fmt.Fprintf(&sk, "func fkd() %s { var x %s = %d.0; return x }\nfunc fka() %s { var x %s; x = %d.0; return x }\nfunc fkp() %s { return par(%d.0) }\nfunc fkr() %s { return %d.0 }\nfunc fkf() %s { s := &S{F: %d.0}; return s.F }\nfunc fke() %s { s := []%s{%d.0}; return s[0] }\nfunc fkm() %s { m := map[string]%s{\"k\": %d.0}; return m[\"k\"] }\nconst FKC = %d.0\nfunc fkn() %s { var x %s = FKC; return x }\nfunc fkms() %s { m := map[string]%s{}; m[\"k\"] = %d.0; return m[\"k\"] }\nfunc fkmi() %s { m := map[int]%s{}; m[3] = %d.0; return m[3] }\nfunc fkes() %s { s := make([]%s, 2); s[1] = %d.0; return s[1] }\nfunc fkap() %s { var s []%s; s = append(s, %d.0); return s[0] }\n",
+				T, T, K, T, T, K, T, K, T, K, T, K, T, T, K, T, T, K, K, T, T, T, T, K, T, T, K, T, T, K, T, T, K)
 			// implicit repetition in a typed constant group repeats the type too, also for a compound expression
 			fmt.Fprintf(&sk, "func cgrp1() %s { const ( CA %s = %d + iota - iota; CB; CC ); v := CC; v += 0; return v }\nfunc cgrp2() %s { const ( DA, DB %s = iota * 0 + %d, %d; DC, DD ); v := DD; return v }\nconst ( GA %s = (%d); GB; GC )\nfunc cgrp3() %s { v := GC; return v }\nfunc cgrp4() %s { const ( EA %s = %d; EB ); return EB }\n",
 				T, T, K, T, T, K, K, T, K, T, T, T, K)
@@ -627,7 +627,7 @@ func (c *Ctx) c04Oracle() error {
 					check("absent-key-zero", fmt.Sprintf("%s: map[%s]%s{} read at an absent key, then += %d", fn, P, T, K), s.call(fmt.Sprintf("%s%d", fn, pi)), fmt.Sprintf("%d:%s", K, T))
 				}
 			}
-			for _, fn := range []string{"fkd", "fkp", "fkr", "fke", "fkm", "fkn"} { // (plain assignment and field stores: open finding float-constant-operand)
+			for _, fn := range []string{"fkd", "fkp", "fkr", "fke", "fkm", "fkn", "fkms", "fkmi", "fkes", "fkap"} { // (plain assignment and field stores: open finding float-constant-operand)
 				check("float-spelled-const-store", fmt.Sprintf("%s: the constant %d.0 stored as %s", fn, K, T), s.call(fn), fmt.Sprintf("%d:%s", K, T))
 			}
 			for _, fn := range []string{"cgrp1", "cgrp2", "cgrp3", "cgrp4"} {
